@@ -237,6 +237,20 @@ fn lower_sub_ast_to_instrs(
     Ok((instrs, debug_info))
 }
 
+/// Report an error if an integer cannot be stored in a field of the given size without changing its value.
+fn check_int_fits_in_bytes(emitter: &impl Emitter, arg: &Sp<LowerArg>, value: i32, num_bytes: usize) -> Result<(), ErrorReported> {
+    let bits = 8 * num_bytes as u32;
+    let (min, max) = (-(1i64 << (bits - 1)), (1i64 << bits) - 1);
+    if (min..=max).contains(&(value as i64)) {
+        Ok(())
+    } else {
+        Err(emitter.emit(error!(
+            message("value out of range for {num_bytes}-byte argument"),
+            primary(arg, "{value} does not fit in {num_bytes} bytes"),
+        )))
+    }
+}
+
 // =============================================================================
 
 fn elaborate_diff_switches(stmts: Vec<Sp<LowerStmt>>, diff_flag_names: &context::DiffFlagDefs) -> Vec<Sp<LowerStmt>> {
@@ -534,7 +548,9 @@ fn encode_args(
 
             if extra_arg.is_none() {
                 assert!(!first_normal_arg.expect_raw().is_reg, "checked above");
-                extra_arg = Some(first_normal_arg.expect_raw().expect_int() as _);
+                let value = first_normal_arg.expect_raw().expect_int();
+                check_int_fits_in_bytes(emitter, first_normal_arg, value, std::mem::size_of::<raw::ExtraArg>())?;
+                extra_arg = Some(value as _);
             } else {
                 // Explicit @arg0, but also drawn from args.
                 // To keep the type checker's job simpler, we took an argument from the argument list anyways,
@@ -606,6 +622,12 @@ fn encode_args(
             )).ignore();
             // Should be impossible to trigger once padding is
             // converted to not be optional arguments? Panic?
+        }
+
+        // sub-dword integers: the value (or register id) must be representable in the field,
+        // as either a signed or an unsigned number of that width
+        if let ArgEncoding::Integer { size: size @ (1 | 2), arg0: false, .. } = *enc {
+            check_int_fits_in_bytes(emitter, arg, arg.expect_raw().expect_int(), size as usize)?;
         }
 
         match *enc {
